@@ -163,7 +163,11 @@ versions = {
 sys.argv = [script, out]
 buf = io.StringIO()
 with contextlib.redirect_stdout(buf):
-    runpy.run_path(script, run_name="__main__")
+    try:
+        runpy.run_path(script, run_name="__main__")
+    except SystemExit as e:      # a script that ends with sys.exit(main(...))
+        if e.code not in (0, None):
+            raise
 json.dump(versions, open(out + "/__versions__.json", "w"))
 """
 
